@@ -54,6 +54,31 @@ func runBounds(c *Ctx, rule string, fns []*ssa.Function) int {
 					p.axioms[key] = true
 					p.global = append(p.global, fact{atomLin(p.id(par)), "every call site passes a non-negative " + par.Name()})
 				}
+				// … and a position inside a byte-slice parameter: len(s) - q >= 0 at every call site
+				for si, sp := range fn.Params {
+					if !isByteSlice(sp.Type()) {
+						continue
+					}
+					allLe := true
+					for _, cs := range callers {
+						pc := provers[cs.Parent()]
+						args := cs.Common().Args
+						if pc == nil || cs.Common().IsInvoke() || pi >= len(args) || si >= len(args) {
+							allLe = false
+							break
+						}
+						a, sl := args[pi], args[si]
+						if !pc.proveAt(func(at *ssa.BasicBlock) lin { return pc.lenOf(sl, at).sub(pc.val(a, at)) }, cs.Block()) {
+							allLe = false
+							break
+						}
+					}
+					k2 := "param<=len:" + par.Name() + "/" + sp.Name()
+					if allLe && !p.axioms[k2] {
+						p.axioms[k2] = true
+						p.global = append(p.global, fact{p.lenOf(sp, fn.Blocks[0]).sub(atomLin(p.id(par))), "every call site passes " + par.Name() + " <= len(" + sp.Name() + ")"})
+					}
+				}
 			}
 		}
 	}
@@ -70,6 +95,12 @@ func runBounds(c *Ctx, rule string, fns []*ssa.Function) int {
 			}
 			h := staticCallee(call)
 			ph := provers[h]
+			if h != nil && ph != nil && h.Signature.Results().Len() == 2 && isErrorType(h.Signature.Results().At(1).Type()) {
+				if st, isSt := h.Signature.Results().At(0).Type().Underlying().(*types.Struct); isSt {
+					structPost(pc, ph, fn, h, call, st)
+					continue
+				}
+			}
 			if h == nil || ph == nil || h.Signature.Results().Len() != 2 || !isErrorType(h.Signature.Results().At(1).Type()) || !isIntType(h.Signature.Results().At(0).Type()) {
 				continue
 			}
@@ -88,6 +119,9 @@ func runBounds(c *Ctx, rule string, fns []*ssa.Function) int {
 				}
 			}
 			if !usesGuarded {
+				if debugOn() {
+					fmt.Printf("DEBUG post %s in %s: uses of the result not guarded by err == nil\n", fnName(h), fnName(fn))
+				}
 				continue
 			}
 			var succ []*ssa.Return
@@ -110,6 +144,16 @@ func runBounds(c *Ctx, rule string, fns []*ssa.Function) int {
 				return true
 			}
 			atom := pc.val(res0, call.Block())
+			if debugOn() {
+				fmt.Printf("DEBUG post %s in %s: usesGuarded ok, succ=%d\n", fnName(h), fnName(fn), len(succ))
+				for _, r := range succ {
+					g := ph.val(returnValues(r)[0], r.Block())
+					fmt.Printf("DEBUG   ret val=%s proved>=0: %v\n", g.String(), ph.prove(g, ph.factsAt(r.Block()), 0))
+					for _, f := range ph.global {
+						fmt.Printf("DEBUG     global %s (%s)\n", f.e.String(), f.why)
+					}
+				}
+			}
 			if provedAll(func(r *ssa.Return) lin { return ph.val(returnValues(r)[0], r.Block()) }) {
 				pc.global = append(pc.global, fact{atom, "post-condition of " + fnName(h) + ": result >= 0 when err == nil"})
 			}
@@ -125,6 +169,10 @@ func runBounds(c *Ctx, rule string, fns []*ssa.Function) int {
 				}
 			}
 		}
+	}
+	// facts imported for results may be what a loop variable starts from (pos := sp.start): once more
+	for _, fn := range fns {
+		provers[fn].phiInvariants()
 	}
 	// a helper that hands back its (resized) slice: len(result) == the int parameter n when every
 	// return value is x[:n] (directly, or read back from the pointer it was just stored through)
@@ -1046,4 +1094,71 @@ func scanAnchor(w *World) (fn *ssa.Function, input, typ *ssa.Parameter) {
 		fatalf("anchor: dig.scan has no ([]byte, atype) parameters")
 	}
 	return
+}
+
+// structPost: h(…) (S, error) with S a struct of integers (the header of an array: count and start):
+// for every integer member m of the result, "m >= 0" and "m <= len(byte-slice parameter)" are assumed
+// in the caller when h proves them at every return (a zero value on an error return included).
+func structPost(pc, ph *bprover, fn, h *ssa.Function, call *ssa.Call, st *types.Struct) {
+	res0 := extractOf(call, 0)
+	if res0 == nil {
+		return
+	}
+	memberAt := func(r *ssa.Return, k int) (ssa.Value, bool) {
+		rv := returnValues(r)[0]
+		if kc, isK := rv.(*ssa.Const); isK {
+			_ = kc
+			return nil, true // the zero value: member is 0
+		}
+		fv, ok := fieldValue(cv(rv), k, false, 0)
+		if !ok {
+			// a member the literal does not set is zero
+			if u, isU := rv.(*ssa.UnOp); isU && u.Op == token.MUL {
+				if al, isAl := u.X.(*ssa.Alloc); isAl {
+					if _, n, esc := litField(al, k); n == 0 && !esc {
+						return nil, true
+					}
+				}
+			}
+			return nil, false
+		}
+		return fv.v, len(fv.stack) == 0
+	}
+	for k := 0; k < st.NumFields(); k++ {
+		if !isIntType(st.Field(k).Type()) || isUnsigned(st.Field(k).Type()) {
+			continue
+		}
+		atom := atomLin(pc.fieldAtom(res0, k))
+		provedAll := func(goal func(r *ssa.Return, mv ssa.Value) lin) bool {
+			for _, r := range returnsOf(h) {
+				mv, ok := memberAt(r, k)
+				if !ok {
+					return false
+				}
+				if !ph.prove(goal(r, mv), ph.factsAt(r.Block()), 0) {
+					return false
+				}
+			}
+			return true
+		}
+		valOf := func(r *ssa.Return, mv ssa.Value) lin {
+			if mv == nil {
+				return konst(0)
+			}
+			return ph.val(mv, r.Block())
+		}
+		name := fnName(h) + "()." + st.Field(k).Name()
+		if provedAll(func(r *ssa.Return, mv ssa.Value) lin { return valOf(r, mv) }) {
+			pc.global = append(pc.global, fact{atom, "post-condition: " + name + " >= 0"})
+		}
+		for pi, par := range h.Params {
+			if !isByteSlice(par.Type()) || pi >= len(call.Call.Args) {
+				continue
+			}
+			par := par
+			if provedAll(func(r *ssa.Return, mv ssa.Value) lin { return ph.lenOf(par, r.Block()).sub(valOf(r, mv)) }) {
+				pc.global = append(pc.global, fact{pc.lenOf(call.Call.Args[pi], call.Block()).sub(atom), "post-condition: " + name + " <= len(" + par.Name() + ")"})
+			}
+		}
+	}
 }
